@@ -285,8 +285,86 @@ fn opts(inp: &Input) -> Options {
     .with_minimum_segment_size(inp.minseg)
 }
 
+/// Native counterpart of the effects-mode obligations (C09): concrete files for E1 (foreign file with a small bogus cursor),
+/// E2 (valid arena file cut below the header, opened with a capacity) and E3 (read-only open). Prints one line per
+/// obligation; exit 1 if any of them is violated natively.
+fn open_check(dir: &str) -> i32 {
+  use std::io::Write;
+  let mut bad = 0;
+  // E1
+  let p = format!("{dir}/e1_foreign.bin");
+  let mut bytes = vec![0x41u8; 4096];
+  bytes[16..20].copy_from_slice(&100u32.to_le_bytes());
+  std::fs::File::create(&p).unwrap().write_all(&bytes).unwrap();
+  let r = unsafe { Options::new().with_read(true).with_write(true).map_mut::<Arena, _>(&p) };
+  let after = std::fs::read(&p).unwrap();
+  let diff = bytes.iter().zip(after.iter()).position(|(a, b)| a != b);
+  if r.is_ok() || diff.is_some() || after.len() != bytes.len() {
+    println!("NATIVE E1 violated: foreign file accepted={} first altered byte={:?}", r.is_ok(), diff);
+    bad += 1;
+  } else {
+    println!("NATIVE E1 holds");
+  }
+  drop(r);
+  // E2
+  let mut bad2 = 0;
+  for cut in [0u64, 7, 12, 17, 24, 31] {
+    let p = format!("{dir}/e2_short_{cut}.arena");
+    let _ = std::fs::remove_file(&p);
+    {
+      let a = unsafe { Options::new().with_capacity(4096).with_create_new(true).with_read(true).with_write(true).map_mut::<Arena, _>(&p).unwrap() };
+      let _ = a.alloc_bytes(40).map(|mut b| unsafe { b.detach() });
+    }
+    let f = std::fs::OpenOptions::new().write(true).open(&p).unwrap();
+    f.set_len(cut).unwrap();
+    drop(f);
+    let before = std::fs::read(&p).unwrap();
+    for with_cap in [true, false] {
+      let o = Options::new().with_read(true).with_write(true);
+      let o = if with_cap { o.with_capacity(4096) } else { o };
+      let r = unsafe { o.map_mut::<Arena, _>(&p) };
+      let ok = r.is_ok();
+      drop(r);
+      let after = std::fs::read(&p).unwrap();
+      let kept = after.len() >= before.len() && after[..before.len()] == before[..];
+      if ok || !kept {
+        println!("NATIVE E2 violated: file cut to {cut} bytes (capacity given: {with_cap}): accepted={ok} bytes kept={kept}");
+        bad2 += 1;
+      }
+    }
+  }
+  if bad2 == 0 {
+    println!("NATIVE E2 holds");
+  }
+  bad += bad2;
+  // E3
+  let p = format!("{dir}/e3_ro.arena");
+  {
+    let a = unsafe { Options::new().with_capacity(4096).with_create_new(true).with_read(true).with_write(true).map_mut::<Arena, _>(&p).unwrap() };
+    let _ = a.alloc_bytes(100).map(|mut b| unsafe { b.detach() });
+  }
+  let before = std::fs::read(&p).unwrap();
+  {
+    let a = unsafe { Options::new().with_read(true).map::<Arena, _>(&p).unwrap() };
+    let _ = a.alloc_bytes(8).is_err();
+    let _ = a.discard_freelist();
+    a.set_minimum_segment_size(77);
+    a.increase_discarded(5);
+  }
+  if std::fs::read(&p).unwrap() != before {
+    println!("NATIVE E3 violated: read-only open changed the file");
+    bad += 1;
+  } else {
+    println!("NATIVE E3 holds");
+  }
+  if bad > 0 { 1 } else { 0 }
+}
+
 fn main() {
   let args: Vec<String> = std::env::args().collect();
+  if args[1] == "--open-check" {
+    std::process::exit(open_check(&args[2]));
+  }
   let inp = parse(&args[1]);
   let arena: Arena = if let Some(f) = &inp.file {
     let _ = std::fs::remove_file(f);
